@@ -319,6 +319,9 @@ def domain_eligibility(model):
         cfg = dict(category='runtime', label='X', fields={'k': 1}, triggered=trig, muted=muted, kind=kind,
                    else_message=else_m, correct=correct)
         yield sname, s, sl, cfg
+        if trig and sname in ('none', 'label', 'otherlabel', 'hide-correct'):
+            # a feedback whose rendered message is blank (explain(''), an empty template) is still feedback
+            yield sname + '+blank-message', s, sl, dict(cfg, message='')
 
 
 def r4_r6_merge_table(ctx, sym, model):
